@@ -488,6 +488,7 @@ func (p Prop) immutability(r *core.Run, f *fixture, ops []operation, roots []any
 			lastSite = site
 			busy = false
 		})
+		sim.Budget(100_000_000) // per operation
 		res := op.run()
 		sim.OnYield(nil)
 		if strings.HasPrefix(res, aliasingMarker) {
@@ -590,6 +591,7 @@ func (p Prop) interleaving(r *core.Run, f *fixture, ops []operation, roots []any
 			}
 		})
 	}
+	sim.Budget(400_000_000) // all tasks of the concurrent phase
 	sc.Run()
 	r.Logf("mode 2 (interleaving): %d tasks, max gap %d, %d context switches (%d inside operations)", ntasks, maxGap, len(sc.Events), switchesInOps)
 	if r.Tracing {
